@@ -354,10 +354,9 @@ def option_order(ctx):
                'added ones: later words win for most driver options, so '
                'user options could no longer override them')
     cb = F.fn('bfg9000.tools.cc:CcBuilder.__init__')
-    fl = [e for e in F.effects(cb, lambda e: Q.kwarg(e.call, 'flags')
-                               is not None or Q.kwarg(e.call, 'libs')
-                               is not None, depth=0)]
-    ok = bool(fl) and not any(
+    fl = [e for e in F.effects(cb, lambda e: bool(e.arg(kw='flags')) or
+                               bool(e.arg(kw='libs')), depth=0)]
+    ok = len(fl) >= 3 and not any(
         has_call(e.arg(kw=k), x) for e in fl for k in ('flags', 'libs')
         for x in ('uniques', 'set', 'frozenset', 'sorted'))
     ctx.ob(R, 'CcBuilder.__init__|environment-flags-kept-verbatim', ok,
